@@ -1,6 +1,6 @@
 (* C01 — explicit tree-automata inclusion is exact under every algorithm selection. Statements only. *)
 From Coq Require Import List NArith Bool.
-From V Require Import Sem Prod Incl TrimDefs TrimProofs Lang InclDefs InclProofs.
+From V Require Import Sem Prod Incl TrimDefs TrimProofs Lang InclDefs InclProofs AntichainUp.
 
 (* the verdict function every selection must compute (prepare by trimming, then decide) is exact *)
 Theorem C01_exact : forall v A B, incl_model v A B = true <-> (forall t, accepts A t -> accepts B t).
@@ -26,7 +26,16 @@ Proof. exact leaf_match_spec. Qed.
 Theorem C01_nonrec_leaf_old_refuted : exists B a S, leaf_match_old B a S = true /\ ~ exists p, In p S /\ reach B (Node a nil) p.
 Proof. exact leaf_match_old_refuted. Qed.
 
+(* (A) upward algorithm with antichain pruning: saturation of macro pairs (q, S) that skips every new pair subsumed by a
+   stored pair (q, S') with S' a subset of S gives the same verdict as the full subset construction *)
+Theorem C01_up_antichain_refines : forall A B, up_ac A B = incl_dec A B.
+Proof. exact up_antichain_refines. Qed.
+Theorem C01_up_antichain_exact : forall A B, up_ac A B = true <-> forall t, accepts A t -> accepts B t.
+Proof. exact up_antichain_exact. Qed.
+
 Print Assumptions C01_exact.
+Print Assumptions C01_up_antichain_refines.
+Print Assumptions C01_up_antichain_exact.
 Print Assumptions C01_agree.
 Print Assumptions C01_gate_verdict.
 Print Assumptions C01_model_passes_gate.
